@@ -20,7 +20,7 @@ SS, TM, ET, ME = B.STACKSHOT_END, B.TAG_THREADMAP, B.TAG_EVENTS, B.TAG_MORE_EVEN
 FILL1 = [b'xx', b'', b'x', SS[:5], SS[:15] + SS[:15], TM, b'\0' * 9, b's', ET, ME]
 FILL2 = [b'', TM[:3], ET, b'\0' * 3, SS, b'\x00\x1d', b'\x00' + TM[:1]]
 THREADMAPS = [[(5, 6, 'abc'), (7, 8, 'd')], [], [(5, 6, 'abc')], [(5, 6, 'abc'), (5, 9, 'x'), (1, 6, 'zz')],
-              [(5, 6, b'sh\0iaserverd'), (7, 8, b'ab\0\xff\xfe'), (9, 2 ** 32 - 1, 'n' * 19)]]   # stale bytes after the NUL; extreme pid
+              [(5, 6, b'sh\0iaserverd'), (7, 8, b'ab\0\xff\xfe'), (9, 2 ** 32 - 1, 'n' * 20)]]   # stale bytes after the NUL; extreme pid; a name that fills its field
 GAPS = [b'', b'\0' * 8, b'gapgapga', ME]
 
 STRINGS = {'hello %d': 1, 'procname': 0, 'sender': 3, 'other': 4}   # the process name sits at string number 0
@@ -196,7 +196,7 @@ class C03(Check):
             'included) x both chunk-size conventions. Sub-space "meta": all sequences of <=3 (quick) / <=4 (thorough) '
             'metadata/log blocks over 7 kinds (dyld modules, trace codes, processes, kexts, images, log events, unknown tag) '
             'with occurrence-numbered payloads, the string index placed at every position, x thread maps (4) x gap bytes after '
-            'MORE_EVENTS (4). Sub-space "blocks": every filler length 362..531, 3946..4115, 8042..8211 before the stackshot sentinel, before the thread-map tag and after MORE_EVENTS (a tag at / across every 512/4096/8192-byte block boundary). Sub-space "gapraw": the next events tag 0..80 bytes after a MORE_EVENTS tag, in every chunking of 3 records. Sub-space "tagged": records whose first bytes are container tags / the v3 magic, in every position and chunking. Sub-space "order": records with equal and decreasing timestamps in every order and chunking stay in file order. Sub-space "cli": the processes / kexts / images commands print the sections as JSON. Sub-space "long": 2^k-1, 2^k, 2^k+1 records (k = 6..12) in 1..3 chunks; 2^k-1..2^k+1 chunks (k = 6..11) of one record; dumps that begin 1..4100 bytes into the stream. Every section is read twice and must not change. Sub-space "reuse": ONE parser object parses '
+            'MORE_EVENTS (4). Sub-space "blocks": every filler length 362..531, 3946..4115, 8042..8211 before the stackshot sentinel, before the thread-map tag and after MORE_EVENTS (a tag at / across every 512/4096/8192-byte block boundary). Sub-space "gapraw": the next events tag 0..80 bytes after a MORE_EVENTS tag, in every chunking of 3 records. Sub-space "tagged": records whose first bytes are container tags / the v3 magic, in every position and chunking. Sub-space "order": records with equal and decreasing timestamps in every order and chunking stay in file order. Sub-space "cli": the processes / kexts / images commands print the sections as JSON. Sub-space "long": 2^k-1, 2^k, 2^k+1 records (k = 6..12) in 1..3 chunks; 2^k-1..2^k+1 chunks (k = 6..11) of one record; dumps that begin 1..4100 bytes into the stream. Every section is read twice and must not change. An embedded code table cut into 2..5 blocks inside its multi-byte characters. Sub-space "reuse": ONE parser object parses '
             'two dumps in turn (6 x 6 block sequences x 3 map pairs); the second parse must leave the second dump\'s metadata only. Oracle: events all/in order/== independent decode/before any log; tables after the thread-map '
             'chunk and after logs; list-valued sections concatenated in file order; scalar sections equal one of their '
             'payloads; logs in order with strings resolved. non-trivial = >=2 chunks or >=2 blocks. states = distinct '
@@ -257,6 +257,21 @@ class C03(Check):
                 acc.case(nontrivial=True, transitions=n + 1, state=h64(('chunks', n)), outcome=h64(('chunks', n)))
                 for sig, detail in bad:
                     acc.violation(sig + ':many-chunks', {'kind': 'long', 'n': n, 'comp': 'one-per-record'}, detail)
+            # an embedded code table cut into blocks in the middle of a multi-byte character: the concatenation is valid text
+            text = '0x1 NAM\u00e9 x\n0x2 B\u20acC\n0x3 D\n'.encode('utf-8')
+            for cuts in ((8,), (8, 9), (19,), (19, 20), (18, 19, 20), (1, 8, 19, 30)):
+                parts = [text[a:b] for a, b in zip((0,) + cuts, cuts + (len(text),))]
+                for pad in (True, False):
+                    blocks = [B.v3_block(B.TAG_TRACE_CODES, part, pad or i < len(parts) - 1) for i, part in enumerate(parts)]
+                    p = KdBufParser({}, {})
+                    try:
+                        list(p.parse(io.BytesIO(B.v3(THREADMAPS[0], [RECS[:2]], blocks))))
+                        got = p.trace_codes
+                    except Exception as ex:
+                        got = 'RAISED ' + type(ex).__name__
+                    acc.case(nontrivial=True, transitions=len(parts) + 1, state=h64(('codes-split', cuts)), outcome=h64(('codes-split', cuts)))
+                    if got != text.decode('utf-8'):
+                        acc.violation('v3-trace-codes:character-split-between-blocks', {'kind': 'long', 'cuts': list(cuts), 'pad': pad}, {'got': repr(got)[:200]})
             # the dump does not begin at stream position 0
             for off in (1, 7, 8, 9, 64, 0x100, 0x120, 0x123, 4091, 4096, 4100):
                 for comp in ((3,), (1, 2), (1, 0, 2)):
